@@ -7,6 +7,9 @@
 (*   Reset                       new history: empty home, no logger        *)
 (*   Home   out                  files of <home> outside logs/ (must stay) *)
 (*   Ext n data | ExtDir n       somebody else creates a file / directory  *)
+(*   ExtLink n to file data      ... a symbolic link below logs/; to = the *)
+(*                               real place it leads to, as segments from  *)
+(*                               <<0>> = <home> (<<>>: nowhere)            *)
 (*   Clock  d ms                 the virtual clock is set                  *)
 (*   Open   id oname level cur obs    the logger is constructed            *)
 (*   Conf   level iv keep rot    ApplyConfig / SetLevel                    *)
@@ -19,7 +22,8 @@
 (*   CycleB cur obs              rest of the cycle                         *)
 (*   Read   file end len res obs                                           *)
 (*   Sync   obs                  observation after a burst                 *)
-(* obs = [files: <<[n, size, add, whole]>>, dirs: <<n>>, out: <<[n, data]>>]*)
+(* obs = [files: <<[n, size, add, whole]>>, dirs: <<n>>, out: <<[n, data]>>,*)
+(*        links: <<[n, to, file, data]>>]                                  *)
 (* is the directory listing taken with the standard library after the      *)
 (* action: every regular file below logs/ with its size and the bytes      *)
 (* added since the previous observation (whole: its complete content).     *)
@@ -48,12 +52,15 @@ ObsOK(o) == /\ ObsNames(o) = DOMAIN files'
                  /\ Len(x.add) <= x.size
                  /\ IF x.whole THEN files'[x.n] = x.add ELSE Low(files'[x.n], Len(x.add)) = x.add
             /\ Range(o.dirs) = dirs'
+            /\ {x.n : x \in Range(o.links)} = DOMAIN links'
+            /\ Len(o.links) = Cardinality(DOMAIN links')
+            /\ \A x \in Range(o.links) : links'[x.n] = [to |-> x.to, file |-> x.file, data |-> x.data]
             /\ o.out = outside
 
 TraceReset == /\ Step("Reset")
               /\ now' = [d |-> 0, ms |-> 0]
               /\ conf' = [level |-> 2, iv |-> 10, keep |-> 7, rot |-> TRUE, id |-> <<>>, oname |-> <<>>]
-              /\ files' = EmptyFn /\ dirs' = {} /\ cur' = Closed /\ lastDay' = 0 /\ lastRot' = TRUE
+              /\ files' = EmptyFn /\ dirs' = {} /\ links' = EmptyFn /\ cur' = Closed /\ lastDay' = 0 /\ lastRot' = TRUE
               /\ retainAt' = [d |-> 0, ms |-> 0] /\ recent' = EmptyFn /\ phase' = "new" /\ bleft' = 0
               /\ acc' = 0 /\ wrote' = EmptyFn /\ gone' = {} /\ fresh' = FALSE /\ supp' = NoSupp
               /\ deleted' = {} /\ rd' = NoRead
@@ -63,6 +70,9 @@ TraceHome == /\ Step("Home") /\ outside' = Trace[l].out /\ UNCHANGED <<vars, gse
 
 TraceExt == /\ Step("Ext") /\ ExternalFile(Trace[l].n, Trace[l].data) /\ UNCHANGED <<gseq, outside>>
 TraceExtDir == /\ Step("ExtDir") /\ ExternalDir(Trace[l].n) /\ UNCHANGED <<gseq, outside>>
+TraceExtLink == /\ Step("ExtLink")
+                /\ LET e == Trace[l] IN ExternalLink(e.n, [to |-> e.to, file |-> e.file, data |-> e.data])
+                /\ UNCHANGED <<gseq, outside>>
 
 TraceClock == /\ Step("Clock")
               /\ Trace[l].ms \in 0..(DayMs - 1)
@@ -137,13 +147,14 @@ TraceRead ==
          diag  == IF Len(delta) > DiagFixed
                   THEN SubSeq(delta, 21 + Len(RedOn) + Len(TagE), Len(delta) - Len(RedOff) - 1)
                   ELSE <<>>
-     IN  /\ Read(e.file, e.end, e.len, e.res, High(delta, Min(20, Len(delta))), diag)
+         bey   == [n \in {x.n : x \in Range(outside)} |-> (CHOOSE x \in Range(outside) : x.n = n).data]
+     IN  /\ Read(e.file, e.end, e.len, e.res, High(delta, Min(20, Len(delta))), diag, bey)
          /\ ObsOK(e.obs)
   /\ UNCHANGED <<gseq, outside>>
 
 TraceSync == /\ Step("Sync") /\ UNCHANGED <<vars, gseq, outside>> /\ ObsOK(Trace[l].obs)
 
-TraceNext == (\/ TraceReset \/ TraceHome \/ TraceExt \/ TraceExtDir \/ TraceClock \/ TraceOpen \/ TraceConf
+TraceNext == (\/ TraceReset \/ TraceHome \/ TraceExt \/ TraceExtDir \/ TraceExtLink \/ TraceClock \/ TraceOpen \/ TraceConf
               \/ TraceLog \/ TraceCycleA \/ TraceBanner \/ TraceCycleB \/ TraceRead \/ TraceSync) /\ InvAll'
 
 TraceSpec == TraceInit /\ [][TraceNext]_tvars
